@@ -40,12 +40,15 @@ pub struct Case {
     pub restart_after_install: bool,
 }
 
-pub struct C16;
+/// The property id this run reports under: "C16", or "C33" for the engine-specific half of C33 (what a node
+/// knows about its snapshot after a restart; only `C33:` findings are judged then).
+#[derive(Clone)]
+pub struct C16(pub &'static str);
 
 impl Check for C16 {
     type Case = Case;
     fn id(&self) -> &'static str {
-        "C16"
+        self.0
     }
     fn rule(&self) -> String {
         "case = (engine File|RocksDB, log of 6..=28 entries over 4 keys x 3 values: put / TTL put / delete / CAS (incl. constructed non-idempotent CAS bursts) / leader Noop with term bumps, snapshot point s, retained_log_entries 1..=4, 0..=4 entries applied while create_snapshot is in flight, transfer chunk size, apply/replay batchings); non-trivial = at least one state-changing entry inside the window (s - retained, applied-at-dump]; distinct by hash of (engine, log, s, retained, concurrent)".into()
@@ -70,6 +73,7 @@ impl Check for C16 {
         vec!["installed", "engine_file", "engine_rocks", "window_state_changing", "window_no_state_change", "window_nonidempotent", "concurrent_apply", "entries_after_dump", "term_change_in_window"]
     }
     fn strategy(&self, _tier: Tier) -> BoxedStrategy<Case> {
+        let c33 = self.0 == "C33";
         (
             prop::bool::weighted(0.3),
             log_strategy(3, 28),
@@ -81,9 +85,9 @@ impl Check for C16 {
             proptest::collection::vec(1u8..=4, 1..4),
             (prop_oneof![1 => Just(0u16), 2 => any::<u16>()], any::<bool>()),
         )
-            .prop_map(|(rocks, log, snap_at, retained, concurrent, chunk_size, apply_batches, replay_batches, (b_prefix, restart_after_install))| Case {
+            .prop_map(move |(rocks, log, snap_at, retained, concurrent, chunk_size, apply_batches, replay_batches, (b_prefix, restart_after_install))| Case {
                 b_prefix,
-                restart_after_install,
+                restart_after_install: restart_after_install || c33,
                 rocks,
                 log,
                 snap_at,
@@ -99,7 +103,8 @@ impl Check for C16 {
     fn run(&self, c: &Case) -> Outcome {
         let rt = tokio::runtime::Builder::new_current_thread().enable_all().build().expect("runtime");
         arm_wall_clock();
-        let out = if c.rocks { rt.block_on(run_case::<RocksEng>(c)) } else { rt.block_on(run_case::<FileEng>(c)) };
+        let c33 = self.0 == "C33";
+        let out = if c.rocks { rt.block_on(run_case::<RocksEng>(c, c33)) } else { rt.block_on(run_case::<FileEng>(c, c33)) };
         drop(rt);
         disarm_wall_clock();
         out
@@ -127,7 +132,7 @@ struct Finding {
     detail: String,
 }
 
-async fn run_case<E: Eng>(c: &Case) -> Outcome {
+async fn run_case<E: Eng>(c: &Case, c33: bool) -> Outcome {
     let mut out = Outcome::ok();
     let n = c.log.len();
     let retained = (c.retained.clamp(1, 4) as usize).min(n.saturating_sub(1)).max(1);
@@ -335,6 +340,13 @@ async fn run_case<E: Eng>(c: &Case) -> Outcome {
                 }),
                 _ => {}
             }
+            if b_re.snap_meta.as_ref().map(|m| (m.0, m.1)) != b_inst.snap_meta.as_ref().map(|m| (m.0, m.1)) {
+                findings.push(Finding {
+                    prio: 0,
+                    sig: "C33:snapshot-metadata-lost-by-restart",
+                    detail: format!("B knows its snapshot {:?} right after the install but {:?} after a restart: it can no longer say which snapshot covers the log it purged, nor serve it", b_inst.snap_meta, b_re.snap_meta),
+                });
+            }
             if b_re.last_applied.0 < b_inst.last_applied.0 {
                 findings.push(Finding {
                     prio: 1,
@@ -439,6 +451,8 @@ async fn run_case<E: Eng>(c: &Case) -> Outcome {
         out.nontrivial = false;
         return out;
     }
+    // the engine-specific half of C33 is judged by its own run (./check C33), everything else by C16
+    findings.retain(|f| f.sig.starts_with("C33:") == c33);
     findings.sort_by_key(|f| f.prio);
     for f in &findings {
         out.add_label(format!("finding:{}", f.sig));
